@@ -12,6 +12,7 @@
 //	function / func-literal / loop body entry   -> simrt.Yield(site) prepended
 //	range over a map                            -> range simrt.MapSeq(site, m)
 //	(reflect.Value).MapKeys()                   -> simrt.PermuteValues(site, …)
+//	(reflect.Value).MapRange()                  -> simrt.MapRange(site, …)
 //	time.Now                                    -> simrt.Now
 //	sync.Mutex/RWMutex/Once/Pool (type uses)    -> simrt.Mutex/RWMutex/Once/Pool
 //	go f(x)                                     -> simrt.Go(func(){ f(x) })
@@ -391,7 +392,10 @@ func instrumentFile(p *packages.Package, f *ast.File, fe *fileEdits, rel string)
 						fe.add(off(x.End()), 0, ")")
 					}
 					if fn, ok := s.Obj().(*types.Func); ok && fn.Pkg() != nil && fn.Pkg().Path() == "reflect" && fn.Name() == "MapRange" {
-						unsupp = append(unsupp, site{Kind: "reflect-MapRange", File: rel, Line: fset.Position(x.Pos()).Line, Func: curFunc()})
+						// X.MapRange() -> simrt.MapRange(site, X): same Next/Key/Value protocol, order by the run's policy
+						id := newSite("maprange", x.Pos(), curFunc(), text(x))
+						fe.add(off(x.Pos()), 0, fmt.Sprintf("simrt.MapRange(%d, ", id))
+						fe.add(off(sel.X.End()), off(x.End())-off(sel.X.End()), ")")
 					}
 				}
 			}
